@@ -28,8 +28,9 @@ type captured struct {
 // injection: while the K-th compaction file-system call of the run is being made, a burst of further requests
 // arrives and is written to the log (the thread making the call waits until the log queue is flushed).
 type captureInject struct {
-	AtPoint int // index among the compaction points of the run
-	Burst   []SeqOp
+	AtPoint  int  // index among the compaction points of the run
+	Shutdown bool // instead of a burst: a graceful shutdown of the node is started while that call is being made
+	Burst    []SeqOp
 	OpIndex int // out: index of the history op during which the burst was injected (-1: never reached)
 }
 
@@ -63,6 +64,13 @@ func runCaptureInject(cfg hapi.Config, hist []SeqOp, everyPoint bool, inj *captu
 					if seen == inj.AtPoint && inj.OpIndex < 0 {
 						busy = true
 						inj.OpIndex = cur
+						if inj.Shutdown {
+							node.Poke("shutdown")
+							seen++
+							busy = false
+							vrt.Sleep(1500 * ms) // this file-system call is slow: the shutdown's second of grace passes meanwhile
+							return
+						}
 						_, burst := assignReq(nil, inj.Burst)
 						for _, b := range burst {
 							b.Cmd.Req += 100
@@ -77,12 +85,29 @@ func runCaptureInject(cfg hapi.Config, hist []SeqOp, everyPoint bool, inj *captu
 		}
 		for i, o := range hist {
 			cur = i
+			if inj != nil && inj.Shutdown && inj.OpIndex >= 0 {
+				break // the node is shutting down: no further requests
+			}
 			if o.Cmd != nil {
 				clients[o.Client].Do(o.Cmd.Build())
 				vrt.Quiesce()
 			} else {
 				vrt.AdvanceTo(vrt.Elapsed() + o.Tick)
 			}
+		}
+		if inj != nil && inj.Shutdown && inj.OpIndex >= 0 {
+			// let the graceful stop run to its end (it waits for a running compaction)
+			for w := 0; w < 100 && node.Poke("isclosed") != true; w++ {
+				vrt.AdvanceTo(vrt.Elapsed() + 100*ms)
+			}
+			if node.Poke("isclosed") != true {
+				out.Err = "the graceful shutdown did not finish within 10 s"
+			}
+			vrt.KillGroup(cfg.WithDefaults().Name)
+			fs.OnPoint = nil
+			out.Final = fs.Image()
+			out.EndT = vrt.Elapsed()
+			return
 		}
 		vrt.AdvanceTo(vrt.Elapsed() + 250*ms)
 		node.Poke("flushaof")
